@@ -15,7 +15,7 @@ from ..absint import Interp, Raised, Record, Unsupported
 from ..astx import attr_writes, call_name, calls_named, dotted, enclosing_stmt, expand, facts_at, has_fact, kwarg, last
 from ..cfg import CFG
 from ..index import AnchorError, FuncNode, enclosing_function, loc, parent, qualname_of
-from ..selftest import Twin
+from ..selftest import Twin, multi
 
 EXPLANATION = (
     "Static necessary-condition rules over the reducer in workflows/runtime/control_loop.py: "
@@ -142,6 +142,14 @@ def run(chk) -> None:
         chk.ob("C01.R3", "CommandRunWorker is issued only for an entry that is in progress with that id", ok, m=mod, node=c, fn=fn,
                instance=f"run-worker:{ast.unparse(idv) if idv is not None else '?'}", reason=reason)
 
+    # a re-run re-binds the entry's snapshot; the staleness test that triggers the re-run must read the snapshot as it is *now*,
+    # or a second stale buffer in the same tick re-runs the same entry again (two invocations on one slot, invisible in in_progress)
+    from ..astx import stale_alias_reads
+    _msr, _sr = repo.func(f"{CL}:_process_step_result_tick")
+    _stale = stale_alias_reads(CFG(_sr), "shared_state")
+    chk.ob("C01.R3", "the re-run of an entry is decided against the entry's current snapshot (no alias captured before the snapshot was refreshed)", not _stale, m=_msr,
+           node=_stale[0][2] if _stale else _sr, fn=_sr, instance="run-worker:once-per-tick",
+           reason=(f"`{ast.unparse(_stale[0][0])[:70]}` is read after `{ast.unparse(_stale[0][1])[:60]}`: the same entry can be re-run twice in one tick") if _stale else "")
     # ---------------------------------------------------------------- R4: who creates worker coroutines
     mr, runner = repo.cls(f"{CL}:_ControlLoopRunner")
     callers = []
@@ -294,6 +302,7 @@ def _removal_excluded_by_flag(fn: ast.AST, cmd_stmt: ast.AST, removal_call: ast.
 
 _P = "packages/llama-index-workflows/src/workflows/runtime/control_loop.py"
 TWINS = [
+    Twin("sent snapshot hoisted out of the result loop", _P, *multi(_P, [("    output_event_name: str | None = None\n", "    output_event_name: str | None = None\n    _sent_state = this_execution.shared_state\n"), ("            sent_events = this_execution.shared_state.collected_events.get(\n                result.event_id, []\n            )", "            sent_events = _sent_state.collected_events.get(\n                result.event_id, []\n            )")]), "C01.R3"),
     Twin("capacity off by one", _P, "has_space = len(state.in_progress) < state.config.num_workers", "has_space = len(state.in_progress) <= state.config.num_workers", "C01.R1"),
     Twin("capacity test dropped", _P, "    if has_space:\n        # Assign the smallest", "    if True:\n        # Assign the smallest", "C01.R1"),
     Twin("id from length", _P, "id = id_candidates[0]", "id = len(state.in_progress)", "C01.R2"),
